@@ -18,8 +18,9 @@ type Profile struct {
 
 // LexDef is the stateful lexer profile. WS (and optionally Comment) are elided by the parser.
 var LexDef = lexer.MustSimple([]lexer.SimpleRule{
-	{Name: "Ident", Pattern: `[a-zA-Z]+`},
+	// (Int before Ident: the symbol numbers then differ from those the default text/scanner lexer gives the same names)
 	{Name: "Int", Pattern: `[0-9]+`},
+	{Name: "Ident", Pattern: `[a-zA-Z]+`},
 	{Name: "Punct", Pattern: `[-+;()]`},
 	{Name: "WS", Pattern: `\s+`},
 	{Name: "Comment", Pattern: `#[a-z ]*#`},
